@@ -138,7 +138,11 @@ void cmb_event_queue_terminate(void)
  */
 void cmb_event_queue_clear(void)
 {
+    /* Keep the record of the current event, cmb_event_queue_clear is normally
+     * called from inside an event action (the end-of-simulation event) */
+    const struct cmi_heap_tag current = event_queue->heap[0];
     cmi_hashheap_clear(event_queue);
+    event_queue->heap[0] = current;
 }
 
 /*
